@@ -184,7 +184,7 @@ Proof.
   assert (Hk' : kind (rebase f) = KFloat dd false up sep) by exact Hk.
   destruct (reread_float_fixed (rebase f) dd up sep s m e Hk' Hsep) as [d [_ [He Hrr]]].
   rewrite Hrr.
-  pose proof (render_float (rebase f) dd false up sep (S754_finite s m e) Hk' eq_refl) as Hr'.
+  pose proof (render_float (rebase f) dd false up sep (S754_finite s m e) Hk' eq_refl eq_refl) as Hr'.
   cbv zeta in Hr'. rewrite Hr in Hr'. injection Hr' as Hr'. change (size (rebase f)) with (size f) in He, Hr'. rewrite He in Hr'.
   assert (Hnn : (0 <= round_dec m e (Z.of_nat d))%Z) by apply round_dec_nonneg.
   pose proof (fixed_text_plain s (round_dec m e (Z.of_nat d)) d Hnn) as Hplain.
